@@ -9,6 +9,7 @@
 //! are in the JSON), 3 = usage error. Verdicts are made by /verif/check.
 
 mod common;
+#[allow(dead_code)]
 mod ledger;
 
 mod c02;
